@@ -26,8 +26,10 @@ def operand(draw, shape, nonzero=False):
         # |z| in [1e-3, 1e3] by construction (polar form); keeps denominators away from 0 without rejection
         r = draw(st.lists(st.floats(-3.0, 3.0, allow_nan=False, width=64), min_size=k, max_size=k))
         th = draw(st.lists(st.floats(-3.2, 3.2, allow_nan=False, width=64), min_size=k, max_size=k))
+        if draw(st.integers(0, 3)) == 0:
+            th = [0.0 if t >= 0 else float(np.pi) for t in th]      # purely real non-zero operand (+-|z|)
         re = [float(10 ** a * np.cos(t)) for a, t in zip(r, th)]
-        im = [float(10 ** a * np.sin(t)) for a, t in zip(r, th)]
+        im = [float(10 ** a * np.sin(t)) if abs(np.sin(t)) > 1e-12 else 0.0 for a, t in zip(r, th)]
     else:
         fl = st.floats(-s, s, allow_nan=False, allow_infinity=False, width=64)
         # entries are exactly 0 or at least 1e-100 in magnitude, so products of two entries stay inside the normal
@@ -35,6 +37,11 @@ def operand(draw, shape, nonzero=False):
         snap = lambda v: [0.0 if abs(x) < 1e-100 else x for x in v]
         re = snap(draw(st.lists(fl, min_size=k, max_size=k)))
         im = snap(draw(st.lists(fl, min_size=k, max_size=k)))
+        kind = draw(st.sampled_from(["generic", "generic", "generic", "real", "imaginary"]))   # real constants (e.g. normalisations) are common operands
+        if kind == "real":
+            im = [0.0] * k
+        elif kind == "imaginary":
+            re = [0.0] * k
     return {"shape": list(shape), "re": re, "im": im}
 
 
@@ -289,7 +296,7 @@ def check(case):
     else:
         raise AssertionError(op)
     if ka is not None and not op.startswith("reject_out"):
-        require(torch.equal(ka, ta), "mutated-input", f"{op} modified its first operand")
+        require(torch.equal(ka, ta), "mutated-input", f"{op} modified its first operand (a second use of the same tensor would give a different result)")
     if kb is not None and not op.startswith("reject_out"):
         require(torch.equal(kb, tb), "mutated-input", f"{op} modified its second operand")
     return {}
